@@ -46,7 +46,7 @@ def calc_sig_dur_vals(motion, dt, start=0.05, end=0.95, se=False):
     tuple (start_time, end_time)
     """
 
-    cum_acc2 = np.cumsum(motion ** 2)
+    cum_acc2 = np.cumsum(np.asarray(motion, dtype=float) ** 2)
     ind2 = np.where((cum_acc2 > start * cum_acc2[-1]) & (cum_acc2 < end * cum_acc2[-1]))
     start_time = ind2[0][0] * dt
     end_time = ind2[0][-1] * dt
